@@ -47,6 +47,7 @@ func init() {
 	execs["c07.seq"] = execC07Seq
 	execs["c07.proto"] = execC07Proto
 	execs["c07.conc"] = execC07Conc
+	execs["c07.hist"] = execC07Hist
 	gens["C07"] = genC07
 }
 
@@ -382,6 +383,16 @@ func c07Child(args []string) {
 			os.Exit(3)
 		}
 		_ = c07GenSave(args[1], data)
+	case "yaml": // c07child yaml <cur> <cursor hex> <offset>: the real SaveYAML (simple_offset.go)
+		if len(args) < 4 {
+			os.Exit(3)
+		}
+		cursor, err := hx.Dec(args[2])
+		off, err2 := strconv.ParseInt(args[3], 10, 64)
+		if err != nil || err2 != nil {
+			os.Exit(3)
+		}
+		_ = offset.SaveYAML(args[1], &c07YamlState{Offset: off, Cursor: string(cursor)})
 	default:
 		os.Exit(3)
 	}
@@ -457,6 +468,9 @@ func c07ParseTrace(text, tmpPrefix string) (calls []c07Sys, killed bool) {
 		case "openat":
 			if onTmpPath {
 				c.op = "open"
+				if !strings.Contains(args, "O_TRUNC") {
+					c.op = "openk" // opened without truncation: a left-over temp file keeps its bytes
+				}
 				if !c.failed && !c.killed {
 					tmpFd = c.ret
 				}
@@ -595,7 +609,7 @@ func execC07Proto(t *hx.Toks) string {
 		}
 		calls, _ := c07ParseTrace(text, tmpPrefix)
 		for _, c := range calls {
-			if c.op == f.op {
+			if c.op == f.op || (f.op == "open" && c.op == "openk") {
 				if f.act == "kill" {
 					injects = append(injects, fmt.Sprintf("%s:signal=KILL:when=%d", c.name, c.idx))
 				} else {
@@ -640,6 +654,230 @@ func execC07Proto(t *hx.Toks) string {
 	parts := append([]string{strconv.Itoa(len(toks))}, toks...)
 	parts = append(parts, "killed", hx.B(killed), "disk", disk, "load", load)
 	return strings.Join(parts, " ")
+}
+
+// ---- histories of saves on one directory ---------------------------------------------------
+
+// c07YamlState is the kind of value journalctl / dmesg hand to offset.SaveYAML.
+type c07YamlState struct {
+	Offset int64  `json:"offset"`
+	Cursor string `json:"cursor"`
+}
+
+// c07YamlEnc: the bytes the real encoder (offset.SaveYAML) writes for a state.
+func c07YamlEnc(st c07YamlState) ([]byte, error) {
+	d := c07Dir()
+	defer os.RemoveAll(d)
+	path := filepath.Join(d, "enc")
+	if err := offset.SaveYAML(path, &st); err != nil {
+		return nil, err
+	}
+	return os.ReadFile(path)
+}
+
+type c07Fault struct{ act, op string }
+
+type c07Payload struct {
+	table  []file.VerifC07Job // file
+	blob   []byte             // gen: the bytes; yaml: the encoder's bytes
+	state  c07YamlState       // yaml
+	tokens string
+}
+
+func c07ReadPayload(variant string, t *hx.Toks) c07Payload {
+	switch variant {
+	case "file":
+		return c07Payload{table: c07ReadTable(t)}
+	case "gen":
+		return c07Payload{blob: t.Bytes()}
+	default:
+		c := t.Bytes()
+		o := t.Int64()
+		return c07Payload{state: c07YamlState{Offset: o, Cursor: string(c)}, blob: t.Bytes()}
+	}
+}
+
+func c07SnapshotDir(dir string) map[string][]byte {
+	snap := map[string][]byte{}
+	ents, _ := os.ReadDir(dir)
+	for _, e := range ents {
+		if b, err := os.ReadFile(filepath.Join(dir, e.Name())); err == nil {
+			snap[e.Name()] = b
+		}
+	}
+	return snap
+}
+
+func c07RestoreDir(dir string, snap map[string][]byte) bool {
+	_ = os.RemoveAll(dir)
+	if os.MkdirAll(dir, 0o755) != nil {
+		return false
+	}
+	for name, b := range snap {
+		if os.WriteFile(filepath.Join(dir, name), b, 0o600) != nil {
+			return false
+		}
+	}
+	return true
+}
+
+// c07InjectedSave runs one save in the child under strace. Each fault is placed on the syscall the
+// save issues for that op in a run that already carries the earlier faults; restore() puts the
+// directory back to what it was before this save (every calibration run changes it).
+func c07InjectedSave(childArgs []string, tmpPrefix, traceFile string, faults []c07Fault, restore func() bool) ([]string, bool, string) {
+	var injects []string
+	for _, f := range faults {
+		if !restore() {
+			return nil, false, "err-io"
+		}
+		text, err := c07Strace(injects, traceFile, childArgs)
+		if err != nil {
+			return nil, false, "err-strace"
+		}
+		calls, _ := c07ParseTrace(text, tmpPrefix)
+		for _, c := range calls {
+			if c.op == f.op || (f.op == "open" && c.op == "openk") {
+				if f.act == "kill" {
+					injects = append(injects, fmt.Sprintf("%s:signal=KILL:when=%d", c.name, c.idx))
+				} else {
+					injects = append(injects, fmt.Sprintf("%s:error=EIO:when=%d", c.name, c.idx))
+				}
+				break
+			}
+		}
+	}
+	if !restore() {
+		return nil, false, "err-io"
+	}
+	text, err := c07Strace(injects, traceFile, childArgs)
+	if err != nil {
+		return nil, false, "err-strace"
+	}
+	calls, killed := c07ParseTrace(text, tmpPrefix)
+	return c07TraceTokens(calls), killed, ""
+}
+
+// execC07Hist: c07.hist <variant> <hasold> OLD <nsaves> (<nf> (<act> <op>)… NEW)…
+// Saves run one after the other on the same directory (a temp file left by an interrupted save is
+// still there for the next one); after each the parent reads and loads the file under the real name.
+func execC07Hist(t *hx.Toks) string {
+	defer quietLogs()()
+	variant := t.Next()
+	if variant != "file" && variant != "gen" && variant != "yaml" {
+		return "bad-case"
+	}
+	hasOld := t.Bool()
+	old := c07ReadPayload(variant, t)
+	nsaves := t.Int()
+	type save struct {
+		faults []c07Fault
+		p      c07Payload
+	}
+	var saves []save
+	for i := 0; i < nsaves && t.Err == nil; i++ {
+		nf := t.Int()
+		var fs []c07Fault
+		for k := 0; k < nf && t.Err == nil; k++ {
+			fs = append(fs, c07Fault{t.Next(), t.Next()})
+		}
+		saves = append(saves, save{fs, c07ReadPayload(variant, t)})
+	}
+	if t.Err != nil || !t.Done() {
+		return "bad-case"
+	}
+	if variant == "yaml" { // the encoder bytes in the case line are an oracle: recompute and compare
+		all := []c07Payload{}
+		if hasOld {
+			all = append(all, old)
+		}
+		for _, s := range saves {
+			all = append(all, s.p)
+		}
+		for _, p := range all {
+			if enc, err := c07YamlEnc(p.state); err != nil || string(enc) != string(p.blob) {
+				return "bad-case:enc"
+			}
+		}
+	}
+	dir := c07Dir()
+	defer os.RemoveAll(dir)
+	work := filepath.Join(dir, "w")
+	cur, tmp := filepath.Join(work, "offsets"), filepath.Join(work, "offsets.tmp")
+	traceFile := filepath.Join(dir, "trace")
+	tmpPrefix := tmp + "."
+	if variant != "file" {
+		tmpPrefix = cur + ".tmp"
+	}
+	if os.MkdirAll(work, 0o755) != nil {
+		return "err-io"
+	}
+	if hasOld {
+		switch variant {
+		case "file":
+			file.VerifC07Save(cur, tmp, old.table)
+		case "gen":
+			if c07GenSave(cur, old.blob) != nil {
+				return "err-io"
+			}
+		case "yaml":
+			if offset.SaveYAML(cur, &old.state) != nil {
+				return "err-io"
+			}
+		}
+	}
+	var out []string
+	for _, sv := range saves {
+		var childArgs []string
+		switch variant {
+		case "file":
+			childArgs = append([]string{"file", cur, tmp}, strings.Fields(c07EncTable(sv.p.table))...)
+		case "gen":
+			childArgs = []string{"gen", cur, hx.Enc(sv.p.blob)}
+		case "yaml":
+			childArgs = []string{"yaml", cur, hx.Enc([]byte(sv.p.state.Cursor)), strconv.FormatInt(sv.p.state.Offset, 10)}
+		}
+		snap := c07SnapshotDir(work)
+		toks, killed, status := c07InjectedSave(childArgs, tmpPrefix, traceFile, sv.faults, func() bool { return c07RestoreDir(work, snap) })
+		if status != "" {
+			return status
+		}
+		disk := "none"
+		if content, err := os.ReadFile(cur); err == nil {
+			disk = hx.Enc(content)
+		}
+		var load string
+		switch variant {
+		case "file":
+			withNow(0, func() {
+				load = c07SafeLoad(func() ([]file.VerifC07Job, error) { return file.VerifC07Load(cur) })
+			})
+		case "gen":
+			bs := &blobSaver{}
+			o := offset.NewOffset(cur)
+			o.Callback = bs
+			switch err := o.Load(); {
+			case err != nil:
+				load = "err"
+			case !bs.called:
+				load = "none"
+			default:
+				load = hx.Enc(bs.loaded)
+			}
+		case "yaml":
+			st := c07YamlState{}
+			if _, err := os.Stat(cur); err != nil {
+				load = "none"
+			} else if err := offset.LoadYAML(cur, &st); err != nil {
+				load = "err"
+			} else {
+				load = "y " + hx.Enc([]byte(st.Cursor)) + " " + strconv.FormatInt(st.Offset, 10)
+			}
+		}
+		rec := append([]string{"sv", strconv.Itoa(len(toks))}, toks...)
+		rec = append(rec, "killed", hx.B(killed), "disk", disk, "load", load)
+		out = append(out, strings.Join(rec, " "))
+	}
+	return strings.Join(out, " ")
 }
 
 // ------------------------------------------------------------------ generators
@@ -772,6 +1010,7 @@ func genC07(w *bufio.Writer, rng *hx.Rng, tier string) {
 
 	// ---- process part first (so that it is never cut by a volume limit) -------------------
 	genC07Proto(w, rng, thorough)
+	genC07Hist(w, rng, thorough)
 
 	// ---- exhaustive small scope: every stream name over a delimiter alphabet ---------------
 	alpha := []byte{'a', ':', ' ', '-'}
@@ -1084,5 +1323,110 @@ func genC07Proto(w *bufio.Writer, rng *hx.Rng, thorough bool) {
 			}
 			line("gen", fs, hasOld, o, hx.Enc(rng.Bytes(rng.Range(0, 60), []byte("abc: 0123\n"))))
 		}
+	}
+}
+
+// genC07Hist: histories of saves on one directory. The family that matters: a save interrupted or
+// failed between creating and renaming the temp file (so the temp file stays behind), then later
+// saves of SHORTER and longer states; the file under the real name is read and loaded after each.
+func genC07Hist(w *bufio.Writer, rng *hx.Rng, thorough bool) {
+	type step struct {
+		faults  []c07Fault
+		payload string
+	}
+	line := func(variant string, hasOld bool, old string, steps []step) {
+		fmt.Fprintf(w, "c07.hist %s %s %s %d", variant, hx.B(hasOld), old, len(steps))
+		for _, st := range steps {
+			fmt.Fprintf(w, " %d", len(st.faults))
+			for _, f := range st.faults {
+				fmt.Fprintf(w, " %s %s", f.act, f.op)
+			}
+			fmt.Fprintf(w, " %s", st.payload)
+		}
+		fmt.Fprintln(w)
+	}
+	blob := func(n int) string {
+		b := []byte("offset: ")
+		for len(b) < n {
+			b = append(b, byte('0'+rng.Intn(10)))
+		}
+		return hx.Enc(append(b, '\n'))
+	}
+	yamlP := func(cursorLen int, off int64) string {
+		st := c07YamlState{Offset: off, Cursor: "s=" + string(rng.Bytes(cursorLen, []byte("0123456789abcdef;=ixbm")))}
+		enc, err := c07YamlEnc(st)
+		if err != nil {
+			return "- 0 -"
+		}
+		return hx.Enc([]byte(st.Cursor)) + " " + strconv.FormatInt(st.Offset, 10) + " " + hx.Enc(enc)
+	}
+	tbl := func(nstreams int, nameLen int) string {
+		j := file.VerifC07Job{Filename: "/var/log/app.log", Inode: 7, SourceID: 1, Timestamp: 1763651665000000000}
+		for i := 0; i < nstreams; i++ {
+			j.Streams = append(j.Streams, file.VerifC07Stream{Name: "s" + strconv.Itoa(i) + string(rng.Bytes(nameLen, []byte("abc"))), Offset: int64(rng.Intn(100000))})
+		}
+		return c07EncTable([]file.VerifC07Job{j})
+	}
+	payload := func(variant string, size int) string { // size 0 = short, 1 = medium, 2 = long
+		switch variant {
+		case "gen":
+			return blob([]int{10, 40, 160}[size])
+		case "yaml":
+			return yamlP([]int{1, 30, 120}[size], int64(rng.Intn(1000000)))
+		default:
+			return tbl([]int{1, 3, 8}[size], []int{0, 4, 12}[size])
+		}
+	}
+	empty := map[string]string{"gen": "-", "yaml": "- 0 -", "file": "0"}
+	// what leaves a temp file behind, per protocol
+	leave := map[string][]c07Fault{
+		"gen":  {{"kill", "write"}, {"kill", "fsync"}, {"kill", "close"}, {"kill", "rename"}, {"err", "write"}, {"err", "fsync"}, {"err", "rename"}},
+		"yaml": {{"kill", "write"}, {"kill", "fsync"}, {"kill", "close"}, {"kill", "rename"}, {"err", "write"}, {"err", "fsync"}, {"err", "rename"}},
+		"file": {{"kill", "fsync"}, {"kill", "rename"}, {"err", "rename"}, {"kill", "unlink"}},
+	}
+	for _, variant := range []string{"gen", "yaml", "file"} {
+		for i, f := range leave[variant] {
+			faults := []c07Fault{f}
+			if f.op == "unlink" {
+				faults = []c07Fault{{"err", "write"}, f}
+			}
+			steps := []step{{faults, payload(variant, 2)}, {nil, payload(variant, 0)}}
+			if i%2 == 0 {
+				steps = append(steps, step{nil, payload(variant, 2)})
+			}
+			line(variant, true, payload(variant, 1), steps)
+		}
+		// no offsets file yet: interrupted first save, then a shorter one; and plain successive saves
+		line(variant, false, empty[variant], []step{{[]c07Fault{{"kill", "rename"}}, payload(variant, 2)}, {nil, payload(variant, 0)}})
+		line(variant, true, payload(variant, 2), []step{{nil, payload(variant, 0)}, {nil, payload(variant, 1)}, {nil, payload(variant, 0)}})
+	}
+	// two interrupted saves in a row, the longer left-over first
+	line("gen", true, payload("gen", 1), []step{{[]c07Fault{{"kill", "rename"}}, payload("gen", 2)}, {[]c07Fault{{"err", "fsync"}}, payload("gen", 1)}, {nil, payload("gen", 0)}})
+	line("yaml", true, payload("yaml", 1), []step{{[]c07Fault{{"err", "rename"}}, payload("yaml", 2)}, {[]c07Fault{{"kill", "close"}}, payload("yaml", 1)}, {nil, payload("yaml", 0)}})
+	if !thorough {
+		return
+	}
+	ops := map[string][]string{"gen": {"open", "write", "fsync", "close", "rename"}, "yaml": {"open", "write", "fsync", "close", "rename"}, "file": {"open", "write", "fsync", "rename", "close", "unlink"}}
+	for i := 0; i < 150; i++ {
+		variant := []string{"gen", "yaml", "file"}[rng.Intn(3)]
+		n := rng.Range(2, 4)
+		var steps []step
+		for k := 0; k < n; k++ {
+			var fs []c07Fault
+			if rng.Chance(3, 5) && k < n-1 {
+				act := "err"
+				if rng.Chance(1, 2) {
+					act = "kill"
+				}
+				fs = append(fs, c07Fault{act, ops[variant][rng.Intn(len(ops[variant]))]})
+			}
+			steps = append(steps, step{fs, payload(variant, rng.Intn(3))})
+		}
+		hasOld := rng.Chance(4, 5)
+		old := empty[variant]
+		if hasOld {
+			old = payload(variant, rng.Intn(3))
+		}
+		line(variant, hasOld, old, steps)
 	}
 }
